@@ -127,6 +127,11 @@ var RegexTable = []RegexCase{
 	{`^\p{L}+$`, []string{"abc", "éß", "日本"}, []string{"", "a1", "a b"}},
 	{`^(a|b)*c$`, []string{"c", "abac"}, []string{"", "abca", "d"}},
 	{`\.json$`, []string{"a.json", ".json"}, []string{"ajson", "a.json ", "a.jsonx"}},
+	// patterns holding characters of several bytes (offsets in the /P/ token are byte offsets)
+	{`caf[eé]s?`, []string{"café", "cafes", "un café noir"}, []string{"caf", "CAFE"}},
+	{`^[а-яё]+$`, []string{"кот", "ёж"}, []string{"cat", "", "кот1"}},
+	{`€\d+`, []string{"€5", "price: €120"}, []string{"$5", "€"}},
+	{`日本`, []string{"日本語", "in 日本"}, []string{"日", "本日"}},
 }
 
 func init() {
